@@ -211,6 +211,11 @@ def run(chk, prog):
                 chk.check(inb and c1 == sorted([sp.Integer(1), N], key=str), "R3", A.loc(ka.fn, {"line": acc.line}),
                           "%s-kick destination covers exactly the N*N cells of bunch n" % axis, "KickMap::apply:%s:destination-cover" % axis)
                 nsite += 1
+    for axis, b in sorted(ka.branches.items()):
+        ok, why = K.source_guard(ka, b)
+        chk.check(ok, "R3", A.loc(ka.fn, {"line": b.din[0].line}), "%s-kick: the source cell stays inside bunch n: %s" % (axis, why),
+                  "KickMap::apply:%s:source-guard" % axis)
+        nsite += 1
     fa = prog.fn("vfps::FokkerPlanckMap::apply", nparams=0)
     chk.used(fa)
     s = I.scan(fa)
